@@ -260,6 +260,9 @@ inline void write_cif_block_to_stream(std::ostream& os_, const Block& block,
   for (const Item& item : block.items) {
     if (item.type == ItemType::Erased)
       continue;
+    // a loop without values is not written, it must not get a separator either
+    if (item.type == ItemType::Loop && item.loop.values.empty())
+      continue;
     if (prev && !options.compact && should_be_separated_(*prev, item)) {
       if (options.misuse_hash)
         os.put('#');
